@@ -1,3 +1,5 @@
 #define H_HM() ghost_g = nondet_size_t(); ghost_o = nondet_size_t(); g_removes = nondet_unsigned(); g_upheaps = nondet_unsigned(); g_found = nondet_ulong(); \
     __CPROVER_assume(g_removes < 1000000 && g_upheaps < 1000000);
 void h_heap_recycleChunk(void) { struct heap_manager *m; node_address w_h = nondet_ulong(); size_t w_n = nondet_size_t(); H_HM(); heap_manager__recycleChunk(m, w_h, w_n); CANARY(); }
+void h_heap_requestChunk(void) { struct heap_manager *m; size_t *n; H_HM(); g_downheaps = nondet_unsigned(); g_lastremoved = nondet_unsigned(); g_allocs = nondet_unsigned(); g_alloc_result = nondet_ulong(); g_last_node = nondet_ulong();
+    heap_manager__requestChunk(m, n); CANARY(); }
